@@ -33,6 +33,7 @@ type boundedSpec struct {
 	Test      string `json:"test"`
 	StandsFor string `json:"stands_for"`
 	Bound     string `json:"bound"`
+	Role      string `json:"role"` // "" = stands in for an unproved part (the claim is exploration); "cross-check" = the part is proved, the run only cross-checks it
 }
 
 type boundedFail struct{ ID, Text string }
